@@ -567,3 +567,10 @@ func (p *Program) implementations(it types.Type, m *types.Func) []*ssa.Function 
 	}
 	return out
 }
+
+func constantInt64(k *types.Const) (int64, bool) {
+	if k == nil || k.Val().Kind() != constant.Int {
+		return 0, false
+	}
+	return constant.Int64Val(k.Val())
+}
